@@ -78,10 +78,10 @@ func Bases() []*Schema {
 		// S3 interfaces and unions with covariant field types and arguments
 		{Defs: []*Def{
 			obj("Query", fld("n", N("Node")), fld("s", N("Shape")), fld("all", L(NN(N("Shape"))))),
-			intf("Node", fld("id", N("ID")), fld("next", N("Node")), fld("list", L(N("Node"))), fld("pick", N("Shape"), arg("w", N("Int")))),
+			intf("Node", fld("id", N("ID")), fld("next", N("Node")), fld("list", L(N("Node"))), fld("pick", N("Shape"), arg("w", N("Int")), arg("ws", L(N("Int"))), arg("e", NN(L(L(N("ID"))))))),
 			intf("Sized", fld("size", NN(N("Float")))),
-			obj("Sq", fld("id", NN(N("ID"))), fld("next", N("Sq")), fld("list", L(NN(N("Ci")))), fld("pick", N("Ci"), arg("w", N("Int")), arg("extra", N("String"))), fld("size", NN(N("Float")))).Impl("Node", "Sized"),
-			obj("Ci", fld("id", N("ID")), fld("next", N("Node")), fld("list", L(N("Node"))), fld("pick", N("Shape"), arg("w", N("Int"))), fld("size", NN(N("Float"))), fld("r", N("Float"))).Impl("Sized", "Node"),
+			obj("Sq", fld("id", NN(N("ID"))), fld("next", N("Sq")), fld("list", L(NN(N("Ci")))), fld("pick", N("Ci"), arg("w", N("Int")), arg("ws", L(N("Int"))), arg("e", NN(L(L(N("ID"))))), arg("extra", N("String"))), fld("size", NN(N("Float")))).Impl("Node", "Sized"),
+			obj("Ci", fld("id", N("ID")), fld("next", N("Node")), fld("list", L(N("Node"))), fld("pick", N("Shape"), arg("w", N("Int")), arg("ws", L(N("Int"))), arg("e", NN(L(L(N("ID")))))), fld("size", NN(N("Float"))), fld("r", N("Float"))).Impl("Sized", "Node"),
 			obj("Tri", fld("a", N("Int"))),
 			uni("Shape", "Sq", "Ci", "Tri"),
 		}},
